@@ -69,7 +69,9 @@ def pandas_read_text(
     dask.dataframe.csv.read_pandas_from_bytes
     """
     bio = BytesIO()
-    if write_header and not b.startswith(header.rstrip()):
+    if write_header:
+        # ``write_header`` is only set for blocks that do not start a file: a
+        # data row that happens to begin with the header text is still data
         bio.write(header)
     bio.write(b)
     bio.seek(0)
